@@ -14,7 +14,8 @@ RULE = (
     "Valid persistence files are produced from Hypothesis-generated states (both formats; main state S_main and "
     "backup state S_b with DISJOINT node ids so that a merge is visible). Then enumerated exhaustively per file: "
     "main in {missing, every truncation length 0..len-1, zero-filled to the same length} x backup in {absent, "
-    "intact, truncated at 0 / 1 / len/2 / len-1, zero-filled}. Oracle: start_persistence() (and "
+    "intact, truncated at 0 / 1 / len/2 / len-1, zero-filled}, the file being named absolutely, by bare name, as ./name or below a "
+    "sub-directory of the working directory (rotating). Oracle: start_persistence() (and "
     "safe_load_sensors()) return without raising; the loaded projection is S_b if the backup is intact, else "
     "empty - never a mixture; a following save + fresh load works. Controls: intact main => S_main. "
     "Non-trivial = truncation strictly inside the file, or zero-fill, with a backup present; distinct by "
@@ -71,7 +72,28 @@ def damage_variants(data, sampled):
     yield "zerofill", bytes(n)
 
 
-def one_load(version, tmp, ext, main_bytes, bak_bytes, expect, stats, case, label, api):
+SHAPES = ("abs", "bare", "dot", "sub")
+
+
+def one_load(version, tmp, ext, main_bytes, bak_bytes, expect, stats, case, label, api, shape="abs"):
+    """`shape`: how the application names the file - absolute, bare name / ./name relative to the working
+    directory, or below a sub-directory of the working directory."""
+    cwd = os.getcwd()
+    try:
+        if shape in ("bare", "dot"):
+            os.chdir(tmp)
+            given = f"net.{ext}" if shape == "bare" else f"./net.{ext}"
+        elif shape == "sub":
+            os.chdir(os.path.dirname(tmp))
+            given = f"{os.path.basename(tmp)}/net.{ext}"
+        else:
+            given = os.path.join(tmp, f"net.{ext}")
+        return _one_load(version, tmp, ext, main_bytes, bak_bytes, expect, stats, case, f"{label}, path {shape}", api, given)
+    finally:
+        os.chdir(cwd)
+
+
+def _one_load(version, tmp, ext, main_bytes, bak_bytes, expect, stats, case, label, api, given):
     path = os.path.join(tmp, f"net.{ext}")
     persist.restore(tmp, {})
     if main_bytes is not None:
@@ -82,7 +104,7 @@ def one_load(version, tmp, ext, main_bytes, bak_bytes, expect, stats, case, labe
             fh.write(bak_bytes)
     where = f"[{ext}, {label}, via {api}]"
     with persist.TimerPatch() as fake:
-        drv = drive.Driver(version, "sync", persistence=True, persistence_file=path)
+        drv = drive.Driver(version, "sync", persistence=True, persistence_file=given)
         try:
             if api == "start_persistence":
                 drv.gw.start_persistence()
@@ -90,13 +112,13 @@ def one_load(version, tmp, ext, main_bytes, bak_bytes, expect, stats, case, labe
                 drv.gw.tasks.persistence.safe_load_sensors()
         except Exception as exc:  # pylint: disable=broad-except
             raise Violation(
-                f"startup_raises.{ext}.{type(exc).__name__}", dict(case, damage=label, api=api),
+                f"startup_raises.{ext}.{type(exc).__name__}", dict(case, damage=label.rsplit(", path ", 1)[0], api=api),
                 f"{where}: start-up raised {type(exc).__name__}: {str(exc)[:200]}",
             ) from exc
         got = drive.typed(drive.projection(drv.gw))
         if got != expect:
             raise Violation(
-                f"wrong_state_loaded.{ext}", dict(case, damage=label, api=api),
+                f"wrong_state_loaded.{ext}", dict(case, damage=label.rsplit(", path ", 1)[0], api=api),
                 f"{where}: loaded state is neither the intact file's nor empty: {first_diff(expect, got)}",
             )
         # a following save + load works
@@ -105,11 +127,11 @@ def one_load(version, tmp, ext, main_bytes, bak_bytes, expect, stats, case, labe
         try:
             drv.gw.tasks.persistence.save_sensors()
         except Exception as exc:  # pylint: disable=broad-except
-            raise Violation(f"save_after_damage_raises.{ext}", dict(case, damage=label, api=api), f"{where}: save after damaged start raised {exc!r}") from exc
+            raise Violation(f"save_after_damage_raises.{ext}", dict(case, damage=label.rsplit(", path ", 1)[0], api=api), f"{where}: save after damaged start raised {exc!r}") from exc
         want = drive.typed(drive.projection(drv.gw))
         again = persist.fresh_load(version, path)
         if drive.typed(drive.projection(again.gw)) != want or step.exc is not None:
-            raise Violation(f"save_after_damage_lost.{ext}", dict(case, damage=label, api=api), f"{where}: state saved after a damaged start does not load back")
+            raise Violation(f"save_after_damage_lost.{ext}", dict(case, damage=label.rsplit(", path ", 1)[0], api=api), f"{where}: state saved after a damaged start does not load back")
         del fake
 
 
@@ -156,14 +178,14 @@ def check_case(case, stats=None, only=None, part=(0, 1), collect=None):
         for idx, (mlab, mdata) in enumerate(mains):
             if idx % part[1] != part[0]:
                 continue
-            for blab, bdata in backups:
+            for bi, (blab, bdata) in enumerate(backups):
                 label = f"main {mlab}, backup {blab}"
                 if only is not None and label != only:
                     continue
                 expect = s_bak if blab == "intact" else empty
                 api = "start_persistence" if count % 5 == 0 else "safe_load_sensors"
                 count += 1
-                guarded(version, tmp, ext, mdata, bdata, expect, stats, case, label, api)
+                guarded(version, tmp, ext, mdata, bdata, expect, stats, case, label, api, SHAPES[(idx + bi) % 4])
                 if stats is not None:
                     inside = mlab == "zerofill" or (mlab.startswith("trunc@") and 0 < int(mlab[6:]) < len(main_data))
                     nt = inside and blab != "absent"
